@@ -137,6 +137,18 @@ def main():
                 l3 = pg.Inference.from_json(i3.to_json())
                 if dict(l3.x0) != dict(i3.x0):
                     extra['failures'].append({'what': 'start values of a finished run differ after save/load'})
+                for data in (np.array([[0.0, np.inf, 2.0], [3.0, -np.inf, np.nan], [6.0, 7.0, 8.5]]),
+                             np.arange(9).reshape(3, 3)):
+                    a0 = pg.SFS2(data)
+                    b0 = pg.SFS2.from_json(a0.to_json())
+                    with tempfile.TemporaryDirectory() as d:
+                        f = os.path.join(d, 's.json')
+                        a0.to_file(f)
+                        c0 = pg.SFS2.from_file(f)
+                    for nm, x in (('string', b0), ('file', c0)):
+                        if not np.array_equal(np.asarray(a0.data, dtype=float), np.asarray(x.data, dtype=float), equal_nan=True):
+                            extra['failures'].append({'what': f'2-SFS entries changed by a {nm} save/load cycle',
+                                                      'original': np.asarray(a0.data, dtype=float).tolist(), 'loaded': np.asarray(x.data, dtype=float).tolist()})
                 a = pg.SFS2(np.arange(16, dtype=float).reshape(4, 4) / 7)
                 b = pg.SFS2.from_json(a.to_json())
                 if not np.array_equal(a.data, b.data):
